@@ -19,6 +19,9 @@ def run(ctx: Ctx):
     R_fwd.g5_module_pairs(pkg, res, col, only={"optimal_completion", "hard_optimal_completion_distillation_loss"}, clause="S1")
     col.floor("g5_pairs", col.counts.get("g5_pairs", 0), 2)
     SC.mode_table(ctx, ["optimal_completion"], "S1")
+    # which prefixes exist is decided by the kernel's shared length bookkeeping (the eos corrections)
+    SC.batch_independence(ctx, "S1")
+    SC.lens_helper_total(ctx, "S1")
     oc = pkg.func("_string::optimal_completion")
     f = pkg.func("_string::hard_optimal_completion_distillation_loss")
     where = f"{rel}::{f.qualname}"
